@@ -126,7 +126,7 @@ theorem transition_refines (m : Mach) (fuel : Nat) (tab : Table) (idx : List Nat
     dsimp only
     conv in (runM ((mworld m fuel).iter _) _) => simp [mworld]
     dsimp only
-    rw [stOut_forLoop (Inv := fun loc => loc.get "self" = some MV.self ∧ loc.get "event_time" = some MV.time)
+    rw [stOut_forLoopC (Inv := fun loc => loc.get "self" = some MV.self ∧ loc.get "event_time" = some MV.time)
       (step := step m fuel) (hinv := by simp)]
     · simp only [List.foldlM_map, step]
       have : (transition m fuel tab idx) = runPops m fuel (statePops m tab idx) tab := by
@@ -140,7 +140,8 @@ theorem transition_refines (m : Mach) (fuel : Nat) (tab : Table) (idx : List Nat
       cases l with
       | nil =>
         simp [nextState_nil, Except.toOption, assignTo, bindNames, evalBlock, evalStmt, evalExpr, evalArgs, evalKws, mworld, mGetAttr,
-          mPrim, h1, h2]
+          mPrim, h1, h2, Ctl.goesOn]
+        exact ⟨_, _, ⟨rfl, rfl⟩, rfl, by simp [h1], by simp [h2]⟩
       | cons a l =>
         cases hn : nextState m fuel s (a :: l) st with
         | error e =>
@@ -148,7 +149,8 @@ theorem transition_refines (m : Mach) (fuel : Nat) (tab : Table) (idx : List Nat
             mPrim, h1, h2, hn]
         | ok st' =>
           simp [Except.toOption, assignTo, bindNames, evalBlock, evalStmt, evalExpr, evalArgs, evalKws, mworld, mGetAttr,
-            mPrim, h1, h2, hn]
+            mPrim, h1, h2, hn, Ctl.goesOn]
+          exact ⟨_, _, ⟨rfl, rfl⟩, rfl, by simp [h1], by simp [h2]⟩
 /-- non-vacuity: the statement is about runs that happen - an empty machine leaves every table as it is -/
 example : stOut (runM (Gen.Src.machineTransition.run (mworld {} 3) [("self", .self), ("index", .idx [0, 1]), ("event_time", .time)])
     [⟨0, 5, true⟩, ⟨0, 6, false⟩]) = some [⟨0, 5, true⟩, ⟨0, 6, false⟩] := by
